@@ -192,9 +192,9 @@ OSExpectY(xpad, kernel, p0) ==              \* p0 0-based position in y
 ImplMethods == <<"dense", "direct", "fft", "overlap_save">>        \* METHODS
 IsOverlap(method) == method \in {"overlap_save", "overlap_add"}    \* method.startswith('overlap_')
 DefaultFftSize(band_number) == Pow2(1 + CeilLog2(band_number))
-\* band_total_size = band_values.size (ALL dimensions, sic)
-ImplCtor(method, fft, band_total_size) ==
-  LET band_number == 2 * band_total_size - 1
+\* K = band_values.shape[-1]: the number of bands comes from the LAST axis (batch axes do not count)
+ImplCtor(method, fft, K) ==
+  LET band_number == 2 * K - 1
   IN IF \A i \in 1..Len(ImplMethods) : ImplMethods[i] # method
        THEN [v |-> "Error", why |-> "method", F |-> None]
      ELSE IF fft # None /\ ~IsOverlap(method)
@@ -263,7 +263,7 @@ ImplOutDtype(method, xd, bd, x64) ==
     [] method = "direct" -> Promote(xd, bd)          \* convolve(pad(x), kernel)
     [] method = "fft" -> Promote(xd, bd)             \* ifft(fft(x) * fft(kernel)).real
     [] method = "overlap_save" ->
-         LET ybuf == DefaultFloat(x64)               \* y = jnp.zeros(l + x_padding_end)   (sic: no dtype)
+         LET ybuf == xd                              \* y = jnp.zeros(l + x_padding_end, dtype=x.dtype)
              yblock == Promote(xd, bd)
          IN IF ybuf # yblock THEN "TypeError"        \* lax.dynamic_update_slice requires equal dtypes
             ELSE ybuf
